@@ -231,11 +231,9 @@ fn determine_target(
 
     let mut host_header: Option<String> = None;
     for header in headers {
-        if let Some(rest) = header.strip_prefix("Host:") {
-            host_header = Some(rest.trim().to_string());
-            break;
-        } else if let Some(rest) = header.strip_prefix("host:") {
-            host_header = Some(rest.trim().to_string());
+        // Header field names are case-insensitive ("HOST:", "hOsT:", ...).
+        if header.len() >= 5 && header.as_bytes()[..5].eq_ignore_ascii_case(b"host:") {
+            host_header = Some(header[5..].trim().to_string());
             break;
         }
     }
